@@ -19,6 +19,11 @@ def owner(why, rc):
 
 
 def run(ctx, prop, n=None):
+    if prop == "C04":
+        # design model of the cursor: partial takes, buffer discard and epoch validation on leader change; mutant = stale epoch
+        ctx.design("FetchCursor", "FetchCursor.cfg", workers=4, timeout=600, tag="cursor_design")
+        m = ctx.tlc("FetchCursor", "FetchCursor_mut.cfg", workers=4, timeout=600, tag="cursor_mutant", allow_fail=True)
+        ctx.notes["design_mutant_stale_epoch_after_partial_take_rejected"] = bool(m.violated)
     n = n or (300 if ctx.tier == "quick" else 3000)
     out = os.path.join(ctx.work, "fetch_trace_raw.ndjson")
     if os.path.exists(out):
